@@ -242,7 +242,7 @@ func runC02(c *Ctx) {
 			}
 		}
 		if n < 8 {
-			anchorFail("C02-D6: found %d Callbacks.OnPacket call sites in the transports and Engine.IO sockets, expected at least 8", n)
+			c.Undecided("C02-D6: found %d Callbacks.OnPacket call sites in the transports and Engine.IO sockets, expected at least 8", n)
 		}
 		// polling server: the POST is answered after OnPacket returned
 		hd := p.Fn("polling", "ServerTransport.handleDataRequest")
